@@ -129,6 +129,10 @@ pub enum E {
     SampleRate,
     /// `match scrutinee { k0 => e0  k1 => e1  _ => d }` on a number with integer-literal arms
     MatchNum(Box<E>, Vec<(i64, E)>, Box<E>),
+    /// array literal of numbers (only as the right-hand side of a `let`)
+    ArrLit(Vec<E>),
+    /// `a[i]`: the index is truncated towards zero and clamped to the array (non-finite -> 0)
+    Index(Box<E>, Box<E>),
     /// verbatim source text (used by type-changing mutations)
     Raw(String),
 }
@@ -186,6 +190,7 @@ pub struct Features {
     pub records: u32,
     pub branches: u32,
     pub matches: u32,
+    pub arrays: u32,
     pub pipes: u32,
     pub nodes: u32,
     pub fns: u32,
@@ -224,6 +229,7 @@ impl Features {
         f!(self.records > 0, "f:record");
         f!(self.branches > 0, "f:branch");
         f!(self.matches > 0, "f:match");
+        f!(self.arrays > 0, "f:array");
         f!(self.pipes > 0, "f:pipe");
         c
     }
@@ -285,6 +291,10 @@ pub struct PCfg {
     pub makers_in_dsp: bool,
     /// `match` on a number with integer-literal arms
     pub num_match: bool,
+    /// local array literals indexed by arbitrary numeric expressions
+    pub arrays: bool,
+    /// array indices may be +-inf (off: the index is `sin(e) * 6.0`, finite or NaN)
+    pub array_index_inf: bool,
     /// nested tuple types (e.g. `(float,(float,float))`) for parameters, returns and `self`
     pub nested_tuples: bool,
 }
@@ -324,6 +334,8 @@ impl Default for PCfg {
             if_in_lambda: true,
             makers_in_dsp: false,
             num_match: true,
+            arrays: true,
+            array_index_inf: true,
             nested_tuples: false,
         }
     }
@@ -553,6 +565,7 @@ impl<'a> PG<'a> {
             if self.cfg.makers_in_dsp && !sc.in_lambda && self.fns.iter().any(|f| f.maker) { 3 } else { 0 }, // 17 per-sample maker instance
             if self.cfg.nested_tuples && tuple_callees.is_empty().not() { 4 } else { 0 }, // 18 destructure a tuple-returning call
             if self.cfg.num_match && !(sc.in_lambda && !self.cfg.if_in_lambda) { 2 } else { 0 }, // 19 match on a number
+            if self.cfg.arrays && self.fuel > 0 && (self.cfg.block_operands || !sc.in_operand) { 2 } else { 0 }, // 20 indexed local array
         ];
         match self.g.weighted(&w) {
             0 => self.leaf_num(sc),
@@ -660,6 +673,16 @@ impl<'a> PG<'a> {
                 let body = self.num(&mut inner);
                 let id = self.id();
                 E::Pipe(id, Box::new(x), Box::new(E::Lam(vec![Param { name: pname, ty: Ty::Num, annotate: false }], Box::new(body))))
+            }
+            20 => {
+                // { let tb = [e0, e1, ..]  tb[index] }  — the index may be any number, stateful calls included
+                self.feat.arrays += 1;
+                let name = self.fresh("tb");
+                let n = self.g.int(1, 4) as usize;
+                let elems: Vec<E> = (0..n).map(|_| if self.g.bool(1, 3) { self.num(sc) } else { self.small_num(sc) }).collect();
+                let idx = self.num(sc);
+                let idx = if self.cfg.array_index_inf { idx } else { E::Bin(Bop::Mul, Box::new(E::B1("sin", Box::new(idx))), Box::new(E::Lit("6.0".into()))) };
+                E::Block(vec![S::Let(Pat::Var(name.clone()), E::ArrLit(elems))], Box::new(E::Index(Box::new(E::Var(name)), Box::new(idx))))
             }
             19 => {
                 self.feat.matches += 1;
@@ -834,7 +857,7 @@ impl<'a> PG<'a> {
         let vars = self.vars_of(sc, &ty);
         let callees: Vec<FnSig> = self.fns.iter().filter(|f| f.ret == ty && !f.maker && (sc.allow_state || !f.stateful) && (self.cfg.state_in_branches || !sc.in_branch || !f.stateful)).cloned().collect();
         let self_ok = sc.self_ty.as_ref() == Some(&ty);
-        let w = [6, if vars.is_empty() { 0 } else { 3 }, if callees.is_empty() { 0 } else { 4 }, if self.fuel > 0 && self.cfg.tuple_if && !(sc.in_lambda && !self.cfg.if_in_lambda) { 1 } else { 0 }, if self_ok { 3 } else { 0 }, if self.fuel > 0 { 1 } else { 0 }];
+        let w = [6, if vars.is_empty() { 0 } else { 3 }, if callees.is_empty() || self.fuel <= 0 { 0 } else { 4 }, if self.fuel > 0 && self.cfg.tuple_if && !(sc.in_lambda && !self.cfg.if_in_lambda) { 1 } else { 0 }, if self_ok { 3 } else { 0 }, if self.fuel > 0 { 1 } else { 0 }];
         match self.g.weighted(&w) {
             0 => {
                 self.feat.tuples += 1;
@@ -847,7 +870,8 @@ impl<'a> PG<'a> {
                     .iter()
                     .enumerate()
                     .map(|(i, t)| {
-                        self.fuel = 2;
+                        // never more than the caller had left: nested tuple arguments must not refuel
+                        self.fuel = saved.min(2);
                         match t {
                             Ty::Num => self.small_num(sc),
                             // only the first element sits inside the lookahead window
@@ -1234,7 +1258,7 @@ fn render_pat(p: &Pat, out: &mut String) {
 }
 
 fn atomic(e: &E) -> bool {
-    matches!(e, E::Raw(_) | E::Lit(_) | E::Var(_) | E::SelfV | E::Now | E::SampleRate | E::Call(..) | E::B1(..) | E::B2(..) | E::Mem(..) | E::Delay(..) | E::Tup(_) | E::Rec(_) | E::Proj(..) | E::Field(..) | E::Block(..) | E::RecUpd(..))
+    matches!(e, E::Raw(_) | E::Lit(_) | E::Var(_) | E::SelfV | E::Now | E::SampleRate | E::Call(..) | E::B1(..) | E::B2(..) | E::Mem(..) | E::Delay(..) | E::Tup(_) | E::Rec(_) | E::Proj(..) | E::Field(..) | E::Block(..) | E::RecUpd(..) | E::ArrLit(_) | E::Index(..))
 }
 
 fn render_sub(e: &E, lay: &Layout, level: usize, out: &mut String, cn: &mut usize) {
@@ -1447,6 +1471,22 @@ fn render_e_inner(e: &E, lay: &Layout, level: usize, out: &mut String, cn: &mut 
             ind(out, lay, level);
             out.push('}');
         }
+        E::ArrLit(es) => {
+            out.push('[');
+            for (i, e) in es.iter().enumerate() {
+                if i > 0 {
+                    out.push_str(", ");
+                }
+                render_e(e, lay, level, out, cn);
+            }
+            out.push(']');
+        }
+        E::Index(a, i) => {
+            render_sub(a, lay, level, out, cn);
+            out.push('[');
+            render_e(i, lay, level, out, cn);
+            out.push(']');
+        }
         E::Raw(t) => out.push_str(t),
     }
 }
@@ -1517,6 +1557,11 @@ pub fn visit_mut(e: &mut E, f: &mut dyn FnMut(&mut E)) {
             visit_mut(sc, f);
             arms.iter_mut().for_each(|(_, x)| visit_mut(x, f));
             visit_mut(d, f);
+        }
+        E::ArrLit(es) => es.iter_mut().for_each(|x| visit_mut(x, f)),
+        E::Index(a, i) => {
+            visit_mut(a, f);
+            visit_mut(i, f);
         }
     }
 }
@@ -1671,6 +1716,11 @@ fn rename_e(e: &mut E, f: &dyn Fn(&str) -> String) {
             rename_e(sc, f);
             arms.iter_mut().for_each(|(_, x)| rename_e(x, f));
             rename_e(d, f);
+        }
+        E::ArrLit(es) => es.iter_mut().for_each(|x| rename_e(x, f)),
+        E::Index(a, i) => {
+            rename_e(a, f);
+            rename_e(i, f);
         }
     }
 }
